@@ -20,12 +20,12 @@ import (
 
 type nullLogger struct{}
 
-func (nullLogger) Errorf(string, ...interface{})             {}
-func (nullLogger) Infof(string, ...interface{})              {}
-func (nullLogger) Debugf(string, ...interface{})             {}
-func (nullLogger) Error(string)                              {}
-func (nullLogger) Info(string)                               {}
-func (nullLogger) Debug(string)                              {}
+func (nullLogger) Errorf(string, ...interface{})               {}
+func (nullLogger) Infof(string, ...interface{})                {}
+func (nullLogger) Debugf(string, ...interface{})               {}
+func (nullLogger) Error(string)                                {}
+func (nullLogger) Info(string)                                 {}
+func (nullLogger) Debug(string)                                {}
 func (n nullLogger) WithFields(log.Fields) log.LoggerInterface { return n }
 func (n nullLogger) WithError(error) log.LoggerInterface       { return n }
 
